@@ -322,6 +322,35 @@ func allowedDrop(list []allowEntry, caller, callee string) (*allowEntry, bool) {
 	return nil, false
 }
 
+// inheritedDrop: fn is not on the list of known functions (a helper extracted
+// later) and every one of its callers has an allow-list entry for callee, or
+// inherits one in the same way.
+func inheritedDrop(p *Program, list []allowEntry, fn *ssa.Function, callee string, depth int) (*allowEntry, bool) {
+	if e, ok := allowedDrop(list, fn.String(), callee); ok {
+		return e, true
+	}
+	root := fn
+	for root.Parent() != nil {
+		root = root.Parent()
+	}
+	if depth > 3 || isKnownFunc(root.String()) {
+		return nil, false
+	}
+	var found *allowEntry
+	callers := p.Callers(root)
+	if len(callers) == 0 {
+		return nil, false
+	}
+	for _, e := range callers {
+		a, ok := inheritedDrop(p, list, e.Caller, callee, depth+1)
+		if !ok {
+			return nil, false
+		}
+		found = a
+	}
+	return found, found != nil
+}
+
 // checkNoDroppedErrors runs E5 over the functions of the given packages.
 func checkNoDroppedErrors(p *Program, r *Result, pkgs []string) {
 	allow := loadAllowDropped(r)
@@ -340,6 +369,11 @@ func checkNoDroppedErrors(p *Program, r *Result, pkgs []string) {
 			}
 			if why, ok := neverFails[s.Callee]; ok {
 				r.OK(fn.String(), key, r.pos(s.Call), "dropped: "+why, Witness{Kind: "table", Text: why})
+				continue
+			}
+			if e, ok := inheritedDrop(p, allow, fn, s.Callee, 0); ok && e.Caller != fn.String() && siteAllowed(p, e, s) {
+				// a helper the rules do not know, called only from functions in which this drop is accepted
+				r.OK(fn.String(), key, r.pos(s.Call), "dropped, allow-listed for every caller of this helper: "+e.Reason, Witness{Kind: "table", Text: e.Reason})
 				continue
 			}
 			if e, ok := allowedDrop(allow, fn.String(), s.Callee); ok && (e.Count == 0 || counts[fn.String()+"|"+s.Callee] < e.Count) && siteAllowed(p, e, s) {
